@@ -43,6 +43,10 @@ type c09Case struct {
 
 type walkmodel_Tree = memfs.Tree
 
+// c09OpBudget bounds the file-system operations of one scan of a generated tree (a dozen
+// nodes, a few hundred operations): see memfs.Options.OpBudget.
+const c09OpBudget = 1 << 20
+
 // c09SecondTree is the content of the fault-free second scan root (names no generated tree uses).
 var c09SecondTree = memfs.Tree{Nodes: []memfs.Node{
 	{Path: "zz2", Kind: memfs.KDir},
@@ -152,7 +156,7 @@ func (c c09Case) run(r c09Run) scanOut {
 	cfg := c.Cfg
 	cfg.ErrorOnFSErrors = r.ErrorOnFS
 	cfg.MaxFileSize = r.MaxFileSize
-	mfs := memfs.New(c.Tree, memfs.Options{ReadDirFile: r.ReadDirFile, Faults: r.Faults})
+	mfs := memfs.New(c.Tree, memfs.Options{ReadDirFile: r.ReadDirFile, Faults: r.Faults, OpBudget: c09OpBudget})
 	// "the scan still terminates": a scan of a dozen in-memory nodes takes milliseconds; one
 	// that has not returned after five minutes is reported as non-terminating (a short limit is not a correctness signal on a busy machine).
 	done := make(chan scanOut, 1)
@@ -172,7 +176,37 @@ func (c c09Case) run(r c09Run) scanOut {
 		}
 	}
 	go func() { done <- runScan(roots, cfg, c.Exts, nil) }()
-	if out, ok := ev.Await(done, 20*time.Second, ev.HangLimit); ok {
+	// a walk that keeps calling the file system without end is decided by the count of its
+	// calls, which does not depend on how busy the machine is
+	spun := make(chan scanOut, 1)
+	stop := make(chan struct{})
+	defer close(stop)
+	go func() {
+		tick := time.NewTicker(50 * time.Millisecond)
+		defer tick.Stop()
+		for {
+			select {
+			case <-stop:
+				return
+			case <-tick.C:
+				if mfs.Exceeded() {
+					spun <- scanOut{Panic: fmt.Sprintf("the scan does not terminate: it made more than %d file-system operations on a tree of %d nodes", c09OpBudget, len(c.Tree.Nodes))}
+					return
+				}
+			}
+		}
+	}()
+	merged := make(chan scanOut, 2)
+	go func() {
+		select {
+		case o := <-done:
+			merged <- o
+		case o := <-spun:
+			merged <- o
+		case <-stop:
+		}
+	}()
+	if out, ok := ev.Await(merged, 20*time.Second, ev.HangLimit); ok {
 		return out
 	}
 	return scanOut{Panic: fmt.Sprintf("the scan did not return within %v (%d file-system operations so far)", ev.HangLimit, len(mfs.Log()))}
